@@ -39,9 +39,10 @@ import (
 
 const tagRelocLeak = "ext4-dir-relocate-refused-leaks-blocks"
 
-// relocLeakListed: the finding is listed in known_findings.json (the witness replay of dirrelocfull is then reported
-// with c.Known; until then it only leaves a stat key and a note)
-const relocLeakListed = false
+// relocLeakListed: the finding is listed in known_findings.json for C05 (the witness replay of dirrelocfull is
+// reported with c.Known in mode=fsck, the C05 run; in mode=tree, C04's run, it only leaves a stat key and a note:
+// the refused create leaves the tree as it was)
+const relocLeakListed = true
 
 type relocCfg struct {
 	name    string
@@ -477,12 +478,12 @@ func (e *engine) relocRefused(h relocCfg, cfg x.Config, d *memdev.Dev, id string
 	case trigger && symptom:
 		c.Stat("dirreloc.refused-leak-reproduced")
 		c.Note("%s: %s", tagRelocLeak, msg)
-		if relocLeakListed {
+		if relocLeakListed && e.fsck {
 			c.Known(tagRelocLeak, true, msg)
 		}
 	case trigger && len(orphans) == 0 && extStr(pre.ext) == extStr(post.ext):
 		c.Stat("dirreloc.refused-clean")
-		if relocLeakListed {
+		if relocLeakListed && e.fsck {
 			c.Known(tagRelocLeak, false, msg)
 		}
 	default:
